@@ -20,7 +20,7 @@ ASSUMPTIONS = ['oracle: Python set operations on the key sets; difference keeps 
                'operands of one family and one implementation; object keys of one ordered type (+ None)',
                'reversed "-" with a non-BTrees left operand and "^" on mappings (Python only) are not part of the shared API']
 
-PLAIN = ('list', 'tuple', 'gen', 'pyset')
+PLAIN = ('list', 'tuple', 'gen', 'pyset', 'keysview', 'valuesview')
 BT = ('Set', 'TreeSet', 'Bucket', 'BTree')
 
 
@@ -74,11 +74,11 @@ def _cases(shard):
         ak, bk = draw(kinds), draw(kinds)
         if draw(st.integers(0, 7)) == 0:
             # the in-place operators only exist on sets: make (set, plain sequence) pairs frequent
-            ak, bk = draw(st.sampled_from(['Set', 'TreeSet'])), draw(st.sampled_from(['list', 'tuple', 'gen']))
+            ak, bk = draw(st.sampled_from(['Set', 'TreeSet'])), draw(st.sampled_from(['list', 'tuple', 'gen', 'valuesview']))
 
         def plainify(keys, kind):
             keys = list(keys)
-            if kind in ('list', 'tuple', 'gen'):
+            if kind in ('list', 'tuple', 'gen', 'valuesview'):
                 if keys and draw(st.booleans()):
                     extra = draw(st.lists(st.sampled_from(keys), max_size=4))
                     keys = keys + extra
@@ -95,7 +95,7 @@ def _cases(shard):
             if not pool:
                 return mine
             return draw(st.lists(st.sampled_from(pool), max_size=2 * len(other) + 2))
-        if bk in ('list', 'tuple', 'gen') and ak in BT and draw(st.integers(0, 2)) == 0:
+        if bk in ('list', 'tuple', 'gen', 'valuesview') and ak in BT and draw(st.integers(0, 2)) == 0:
             b = multiset(b, a)
         elif ak in ('list', 'tuple', 'gen') and bk in BT and draw(st.integers(0, 2)) == 0:
             a = multiset(a, b)
@@ -186,6 +186,20 @@ def build(fam, impl, spec):
         return (k for k in keys), None
     if kind == 'pyset':
         return set(keys), None
+    if kind == 'keysview':
+        # the lazy keys() sequence of a tree as a plain iterable operand
+        c = F.cls(fam, 'TreeSet', impl)(keys)
+        return c.keys(), None
+    if kind == 'valuesview':
+        # the lazy values() sequence of a mapping tree whose values are keys of the family: an iterable that is
+        # neither sorted nor free of repetitions
+        if fam[0] != fam[1]:
+            return list(keys), None
+        c = F.cls(fam, 'BTree', impl)()
+        dom = [F.dk(fam, x) for x in F.domain(fam, 'int') if x is not None]
+        for i, k in enumerate(keys):
+            c[dom[i % len(dom)]] = k
+        return c.values(), None
     c = F.cls(fam, kind, impl)()
     vals = {}
     for i, k in enumerate(keys):
@@ -236,6 +250,7 @@ def run_case(case, ctx):
     feats = {
         'impl': impl, 'a_kind': ak, 'b_kind': bk,
         'dup': (ak in PLAIN and len(keysA) != len(sa)) or (bk in PLAIN and len(keysB) != len(sb)),
+        'view': ak.endswith('view') or bk.endswith('view'),
         'none_in_plain': (ak in PLAIN and None in sa and len(sa) > 1) or (bk in PLAIN and None in sb and len(sb) > 1),
     }
     set_cls = F.cls(fam, 'Set', impl)
